@@ -230,6 +230,8 @@ pub struct Env {
     /// scenario-level: pipes answer with hostile-but-legal readiness (self-waking Pending, late wake-ups of old wakers)
     pub jitter: Option<u64>,
     pub jitter_writes: bool,
+    /// identity each connection announced in its READY (non-empty ones only)
+    pub announced: BTreeMap<i64, Vec<u8>>,
 }
 
 pub enum Driven<T> {
@@ -323,7 +325,7 @@ pub fn sanitize(v: &mut Value) {
 
 impl Env {
     pub fn new(backend: Arc<dyn MultiPeerBackend>) -> Env {
-        Env { backend, conns: BTreeMap::new(), attaching: BTreeMap::new(), out: vec![], waker: CountWaker::new(), seq: 0, partial_sends: BTreeMap::new(), last_wire_conn: None, jitter: None, jitter_writes: false }
+        Env { backend, conns: BTreeMap::new(), attaching: BTreeMap::new(), out: vec![], waker: CountWaker::new(), seq: 0, partial_sends: BTreeMap::new(), last_wire_conn: None, jitter: None, jitter_writes: false, announced: BTreeMap::new() }
     }
     pub fn ev(&mut self, mut v: Value) {
         sanitize(&mut v);
@@ -486,6 +488,9 @@ impl Env {
                     from_lib.break_pipe(kind_of(k));
                 }
                 let auto_ident = op.get("ident").and_then(|v| v.as_str()).map(|s| s.is_empty()).unwrap_or(true);
+                if !auto_ident {
+                    self.announced.insert(c, rc::unhex(op["ident"].as_str().unwrap_or("")));
+                }
                 self.conns.insert(c, Conn { auto_ident, to_lib: to_lib.clone(), from_lib: from_lib.clone(), scanned: 0, attached: false, ident: None, rel_logged: (false, false), seen_logged: (false, false, false), closed: false });
                 let fut: BoxFut<'static, ZmqResult<PeerIdentity>> = Box::pin(zeromq::__verif::attach(self.backend.clone(), R(to_lib), W(from_lib)));
                 self.attaching.insert(c, Pending { fut, waker: CountWaker::new(), polls: 0, seen_wakes: 0 });
@@ -528,6 +533,26 @@ impl Env {
                     let b = rc::enc_msg(&frames);
                     self.push_cut(lc, &b, op.get("cuts"));
                     self.ev(json!({"ev":"peer_wrote","c":lc,"m":rc::mdesc(&frames)}));
+                }
+            }
+            "preply_or_close" => {
+                // the peer that received the library's last message either answers or, if it is one of `close`, closes
+                if let Some(lc) = self.last_wire_conn {
+                    let closes = op.get("close").and_then(|v| v.as_array()).map(|a| a.iter().any(|x| x.as_i64() == Some(lc))).unwrap_or(false);
+                    if closes {
+                        if let Some(k) = self.conns.get_mut(&lc) {
+                            if !k.closed {
+                                k.closed = true;
+                                k.to_lib.close();
+                                self.ev(json!({"ev":"peer_cut","c":lc,"kind":"eof"}));
+                            }
+                        }
+                    } else {
+                        let frames = frames_of(&op["m"]);
+                        let b = rc::enc_msg(&frames);
+                        self.push_cut(lc, &b, op.get("cuts"));
+                        self.ev(json!({"ev":"peer_wrote","c":lc,"m":rc::mdesc(&frames)}));
+                    }
                 }
             }
             "pbegin" => {
@@ -650,7 +675,8 @@ impl Env {
                     k.ident = Some(idb.clone());
                 }
                 let auto = self.conns.get(&c).map(|k| k.auto_ident).unwrap_or(false);
-                self.ev(json!({"ev":"attach_ret","c":c,"res":"ok","id":rc::fdesc(&idb),"idhex":rc::hex(&idb),"polls":p.polls,"auto":auto}));
+                let announced = self.announced.get(&c).map(|a| rc::fdesc(a));
+                self.ev(json!({"ev":"attach_ret","c":c,"res":"ok","id":rc::fdesc(&idb),"idhex":rc::hex(&idb),"polls":p.polls,"auto":auto,"announced":announced}));
             }
             Driven::Done(Err(e)) => {
                 let (k, _) = errkind(&e);
